@@ -85,27 +85,33 @@ ValueOf(vars, key) == LET v == Lookup(vars, key) IN IF v[1] = "present" THEN v[2
 EscChar(c) == CASE c = 92 -> <<92, 92>> [] c = 34 -> <<92, 34>> [] c = 47 -> <<92, 47>> [] c = 8 -> <<92, 98>>
                 [] c = 12 -> <<92, 102>> [] c = 10 -> <<92, 110>> [] c = 13 -> <<92, 114>> [] c = 9 -> <<92, 116>>
                 [] OTHER -> <<c>>
-RECURSIVE Escape(_)
-Escape(s) == IF s = <<>> THEN <<>> ELSE EscChar(Head(s)) \o Escape(Tail(s))
+\* "JSON-style escaped": JSON makes the escape of the solidus optional ("\/" and "/" are both JSON); sol says whether the
+\* rendering escapes it. Everything else is escaped in the one way JSON has for it.
+RECURSIVE Escape(_, _)
+Escape(s, sol) == IF s = <<>> THEN <<>>
+                  ELSE (IF Head(s) = 47 /\ ~sol THEN <<47>> ELSE EscChar(Head(s))) \o Escape(Tail(s), sol)
 
 \* RenderSeq(items, i, vars) = <<output up to the matching close or the end, index after it>>
-RECURSIVE RenderSeq(_, _, _)
-RenderSeq(items, i, vars) ==
+RECURSIVE RenderSeq(_, _, _, _)
+RenderSeq(items, i, vars, sol) ==
   IF i > Len(items) THEN <<<<>>, i>>
   ELSE LET x == items[i] IN
        IF x[1] = "close" THEN <<<<>>, i + 1>>
        ELSE IF x[1] \in {"open", "openinv"}
-            THEN LET body == RenderSeq(items, i + 1, vars)
-                     rest == RenderSeq(items, body[2], vars)
+            THEN LET body == RenderSeq(items, i + 1, vars, sol)
+                     rest == RenderSeq(items, body[2], vars, sol)
                      show == IF x[1] = "open" THEN Defined(vars, x[3]) ELSE ~Defined(vars, x[3])
                  IN <<(IF show THEN body[1] ELSE <<>>) \o rest[1], rest[2]>>
-            ELSE LET rest == RenderSeq(items, i + 1, vars)
+            ELSE LET rest == RenderSeq(items, i + 1, vars, sol)
                      here == CASE x[1] = "text" -> x[2]
                                [] x[1] = "var" -> ValueOf(vars, x[3])
-                               [] x[1] = "esc" -> Escape(ValueOf(vars, x[3]))
+                               [] x[1] = "esc" -> Escape(ValueOf(vars, x[3]), sol)
                                [] OTHER -> <<>>
                  IN <<here \o rest[1], rest[2]>>
-Render(items, vars) == RenderSeq(items, 1, vars)[1]
+RenderWith(items, vars, sol) == RenderSeq(items, 1, vars, sol)[1]
+Render(items, vars) == RenderWith(items, vars, TRUE)
+\* is `out` a rendering of the template: with the solidus escaped throughout, or left as it is throughout
+IsRendering(out, items, vars) == out = RenderWith(items, vars, TRUE) \/ out = RenderWith(items, vars, FALSE)
 
 \* names in variable position, folded, in order of first occurrence (C18)
 RECURSIVE NameKeys(_, _, _)
